@@ -73,9 +73,11 @@ def build_pomdp(case, explicit_lists=False, labels=None, int01=False, dist_types
     from msdm.core.distributions import DictDistribution
     from msdm.core.distributions.dictdistribution import DeterministicDistribution, UniformDistribution
     n, nA, nO = case["n"], case["nA"], case["nO"]
-    S = [dec_label(l) for l in labels["S"]] if labels else list(range(n))
+    # never-possible outcomes listed with explicit probability 0 get ids / labels after the real ones
+    nSg, nOg = n + len(case.get("state_ghost", [])), nO + len(case.get("obs_ghost", []))
+    S = [dec_label(l) for l in labels["S"]] if labels else list(range(nSg))
     A = [dec_label(l) for l in labels["A"]] if labels else list(range(nA))
-    O = [dec_label(l) for l in labels["O"]] if labels else list(range(nO))
+    O = [dec_label(l) for l in labels["O"]] if labels else list(range(nOg))
 
     def num(p):
         x = fl(p)
@@ -110,9 +112,12 @@ def build_pomdp(case, explicit_lists=False, labels=None, int01=False, dist_types
         "absorbing": {S[s]: bool(x) for s, x in enumerate(case["absorbing"])},
         "init": dist(case["init"], S), "gamma": fl(case["gamma"]),
     }
+    for g in case.get("state_ghost", []):      # a listed-but-impossible successor is still a legitimate argument
+        spec["actions"][S[g]] = tuple(A)
+        spec["absorbing"][S[g]] = False
     p = _the_class()(spec)
     p._gen_S, p._gen_A, p._gen_O = S, A, O
     if explicit_lists:
-        p._state_list = tuple(S)
+        p._state_list = tuple(S[:n])
         p._action_list = tuple(A)
     return p
